@@ -1,7 +1,7 @@
 (* C14: generic specialisations are keyed injectively (kernel K11 translated from /repo on every run; the K11
    plugin fails closed unless hash_type_args is md5(",".join(map(type_name, type_args))).hexdigest()). *)
 From Coq Require Import List String Bool.
-From Verif Require Import Regex PyK PyK_names K11Proofs SpecKey.
+From Verif Require Import Regex PyK PyK_names K11Proofs SpecKey LazyK11.
 From VerifGen Require Import K11.
 Import ListNotations.
 Open Scope string_scope.
@@ -30,3 +30,12 @@ Example C14_spec_key_nonvacuous :
   join ["int"; "str"] <> join ["str"; "int"] /\ join ["c14aux_a.Tag"] <> join ["c14aux_b.Tag"] /\
   forallb comma_free ["typing.List[int]"; "c14aux_a.Tag"] = true.
 Proof. repeat split; cbn; discriminate. Qed.
+
+(* the nested method name (no codec) differs from the compiling builder's own name exactly for a top-level format
+   method (non-"dict" format with an encoder / decoder): the fifth argument of kernel K114b's on-demand test is the
+   model's m_top *)
+Theorem C14_enc_name_differs_iff : forall d h ta f c,
+  In f all_formats -> hexstr h = true ->
+  (mname d h ta f c <> mname d h ta f KNone <-> (f <> default_format_name /\ has_codec c = true)).
+Proof. exact enc_name_differs_iff. Qed.
+Print Assumptions C14_enc_name_differs_iff.
